@@ -23,7 +23,15 @@ TStep == /\ InTrace
          /\ l' = l + 1
          /\ UNCHANGED tid
 TReset == /\ Boundary
-          /\ Init'
+          /\ pc' = InitPc /\ ch' = [i \in 1..InitCap |-> 0] /\ closed' = FALSE
+          /\ capacity' = InitCap /\ available' = InitCap /\ inUse' = 0 /\ baseCap' = InitCap
+          /\ lock' = "none" /\ todo' = FALSE /\ nextRes' = 1
+          /\ slot' = [p \in Procs |-> -1]
+          /\ old' = [p \in Procs |-> 0] /\ tgt' = [p \in Procs |-> 0] /\ cnt' = [p \in Procs |-> 0]
+          /\ rnd' = [c \in Clients |-> Rounds]
+          /\ sweepsLeft' = Sweeps /\ ticksLeft' = Ticks /\ expire' = FALSE
+          /\ stopSweep' = FALSE /\ stopTick' = FALSE
+          /\ held' = {} /\ panic' = <<>> /\ stale' = ""
           /\ l' = l /\ tid' = Trace[l].t
 
 TraceNext == TStep \/ TReset
